@@ -27,6 +27,7 @@ META = {
                     "quiescence is bounded: 12 rounds of (deliver everything, let 100 virtual seconds pass, reconnect if down); a history that does not reach it is counted, not judged"],
 }
 REQUIRED_ORACLES = ["quiescent-comparison", "exhaustive-sequences", "breaks-with-traffic-in-flight"]
+REQUIRED_COUNTERS = ["burst_histories", "connections_dying_under_a_handlers_reply", "new_messages_sent_by_another_task_during_a_retransmission", "breaks_with_traffic_in_flight_or_unacknowledged"]
 NSHARDS = 16
 EXH_DEPTH = {"quick": 8, "thorough": 10}
 NRAND = {"quick": 60, "thorough": 4000}
